@@ -14,6 +14,9 @@ them terminates the process or stops a background watcher, and the previously lo
 * `Sound` — which combinations of checks the code needs (each input class is protected either where the value is
   used or by a `recover` around the goroutine that reads it).
 * `truncations` — the contents a reader can observe while a file is being written: every prefix.
+* `credsOf` — what a credentials file of the redis cache means (declaratively); `credsLoads` — the file as such a
+  partial function (what the code accepts); with `lastGood` it says what the
+  redis client must be handed after any history of (half-)written files: the credentials of the last accepted one.
 -/
 namespace Heimdall.Loaders
 
@@ -116,5 +119,40 @@ def noFatalRequest : List Event → Bool
   | [] => true
   | .request _ .fatal :: _ => false
   | _ :: es => noFatalRequest es
+
+/-- the credentials file of the redis cache as a partial function of its content: what `c.creds` points to
+afterwards, if the content is accepted -/
+def credsLoads (byValue : Bool) (d : CredDoc) : Option (Option Creds) := accepted (loadCreds byValue d)
+
+/-- the keys a credentials file may have -/
+def credKeyOk (k : String) : Bool := k == "username" || k == "password"
+
+/-- the values they may have: anything but a sequence or a mapping -/
+def credValOk : CredVal → Bool
+  | .collection => false
+  | _ => true
+
+/-- the text under key `k`: that of its scalar value, `dflt` if the key is absent or null -/
+def fieldTextD (fs : List (String × CredVal)) (k : String) (dflt : String) : String :=
+  match fs.find? (·.1 == k) with
+  | some (_, .scalar s) => s
+  | _ => dflt
+
+/-- **What a credentials file means**, said without walking it the way the decoder does (the documented format:
+`username` and `password`, both optional, nothing else): a null document and a mapping whose keys are pairwise
+distinct and among the two, with scalar or null values, stand for credentials; nothing else does. -/
+def credsOf : CredDoc → Option Creds
+  | .null => some ⟨"", ""⟩
+  | .map fs =>
+    if (∀ f ∈ fs, credKeyOk f.1 = true ∧ credValOk f.2 = true) ∧ (fs.map (·.1)).Nodup then
+      some ⟨fieldTextD fs "username" "", fieldTextD fs "password" ""⟩
+    else none
+  | _ => none
+
+/-- the contents of the credentials file in a history -/
+def credFilesOf : List CredsEvent → List CredDoc
+  | [] => []
+  | .file d :: es => d :: credFilesOf es
+  | .connect :: es => credFilesOf es
 
 end Heimdall.Loaders
